@@ -257,6 +257,7 @@ FLOAT_KINDS = [
     st.integers(-1000, 1000),
     st.integers(2 ** 60, 2 ** 62),                      # e.g. epoch nanoseconds: sums leave the 64-bit range
     st.integers(1, 9).map(lambda k: 1.0 + k * 1e-10),   # spreads far below sqrt(eps)
+    st.sampled_from([0, 0.0, -0.0, -1, 1, -0.5, 0.5]),  # zeros (falsy running values) among small numbers of both signs
 ]
 FLOATS = st.one_of(*FLOAT_KINDS)
 
